@@ -14,6 +14,7 @@ func init() {
 	register(&Prop{ID: "C12", Run: runC12,
 		Technique: "static analysis: field coverage of teardown (value-flow from Flush/Close receivers to Node fields), typestate of the one-shot teardown flag, must-pass-through of teardown on every worker exit, writer wiring value-flow, sibling agreement of Executor implementations (go/ssa)",
 		Decided: []string{
+			"the output-capture pipe, which shares one MultiWriter with the step's log, is drained to EOF by a goroutine that never closes its read end (C11.pipe-drained, shared)",
 			"every buffered writer a setup function installs on the node is flushed, and its file closed, by teardown (C12.teardown-coverage)",
 			"the one-shot teardown flag is re-armed on the setup path, because a retried step goes through setup/teardown again (C12.teardown-rearm)",
 			"every exit of the worker and of the handler runner after setup passes teardown, explicitly or deferred (C12.always-teardown); flushes precede closes (C12.flush-before-close)",
@@ -38,6 +39,9 @@ func runC12(e *Env) {
 	c12Wiring(e, s)
 	c12ExecutorSiblings(e, s)
 	c12HandbackLast(e, s)
+	if ex := e.FnQuiet(schedRel, "(*Node).Execute"); ex != nil {
+		c11Drain(e, ex) // the log shares one MultiWriter with the capture pipe: a pipe that stops being read cuts the log
+	}
 }
 
 func nodeStruct(e *Env) (*types.Named, *types.Struct) {
